@@ -46,7 +46,10 @@ RULE = ("explicit-state BFS per configuration (data type dna/standard/continuous
         "and by object; concatenate of lists containing the current matrix) is applied to a fresh rebuild, up to the "
         "depth and column bounds; for DNA additionally concatenate_from_streams over every list of <= 3 pool matrices "
         "written as FASTA / PHYLIP text; plus (>= 2 taxa) concatenate of 2-3 sources where one source, in every list "
-        "position, takes every row-length pattern over {missing,0,1,2,3} per taxon (DNA: also as FASTA streams); "
+        "position, takes every row-length pattern over {missing,0,1,2,3} per taxon (DNA: also as FASTA streams); plus "
+        "export_character_indices / export_character_subset on a rectangular and a ragged matrix of every width up to "
+        "the bound with EVERY index list of length <= width+1 (repeats, every order) as list / tuple / generator / "
+        "CharacterSubset / new_character_subset, and set / frozenset / range forms of the same contents; "
         "a case = one transition (state, operation, argument); non-trivial = the namespace has "
         ">= 2 taxa and the matrices involved hold at least one cell")
 ASSUMPTIONS = [
@@ -121,7 +124,7 @@ def bounds(tier):
                 "data_types": list(DTYPES), "namespace_sizes": [1, 2, 3], "pool": "base(9)",
                 "concat_list_len_full_pool": 2, "concat_list_len_subpool": 3, "concat_with_current_len": 2,
                 "concat_with_current_len3_depth": -1,
-                "max_columns": 6, "all_index_subsets_up_to_columns": 4,
+                "max_columns": 6, "all_index_subsets_up_to_columns": 4, "index_collection_columns": 4,
                 "self_extension_depth": 9, "name_collision_depth": 9, "name_collision_depth_lists_of_3": 9,
                 "history_pairs_min_taxa_missing": 2,
                 "line_budget": LINE_BUDGET, "chunk_states": 24}
@@ -129,7 +132,7 @@ def bounds(tier):
             "data_types": list(DTYPES), "namespace_sizes": [1, 2, 3], "pool": "base(9)+case-variant+locus-label(11)",
             "concat_list_len_full_pool": 3, "concat_list_len_subpool": 3, "concat_with_current_len": 3,
             "concat_with_current_len3_depth": 1,
-            "max_columns": 7, "all_index_subsets_up_to_columns": 5,
+            "max_columns": 7, "all_index_subsets_up_to_columns": 5, "index_collection_columns": 5,
             "self_extension_depth": 9, "name_collision_depth": 9, "name_collision_depth_lists_of_3": 9,
             "history_pairs_min_taxa_missing": 1,
             "line_budget": LINE_BUDGET, "chunk_states": 24}
@@ -548,6 +551,52 @@ def judge_concat(sources, res_rows, res_subsets):
                 show_rows(res_rows), k + 1, show_rows(sources[k])))
 
 
+def index_collection_class(idx, form):
+    """class of the index collection handed to an export (never its contents)"""
+    seq = list(idx)[::-1] if form == "rev" else list(idx)
+    kind = {"set": "index-set", "frozenset": "index-set", "range": "index-range", "subset-object": "subset-from-list",
+            "new-subset": "subset-from-list", "iter": "index-iterator", "gen": "index-iterator",
+            "tuple": "index-tuple"}.get(form, "index-list")
+    if len(set(seq)) < len(seq):
+        return kind + "-with-repeats"
+    if seq != sorted(seq):
+        return kind + "-unsorted"
+    return kind + "-ascending"
+
+
+def index_collections(w):
+    """every (index sequence, form) over columns 0..w-1: every list of length <= w+1 (repeats, every order) as
+    list / tuple / generator / CharacterSubset(list) / new_character_subset(list); every distinct content also
+    as set / frozenset; every contiguous content as range"""
+    out = []
+    for k in range(0, w + 2):
+        for seq in itertools.product(range(w), repeat=k):
+            for form in ("list", "tuple", "gen", "subset-object", "new-subset"):
+                out.append((seq, form))
+            if list(seq) == sorted(set(seq)):
+                out.append((seq, "set"))
+                out.append((seq, "frozenset"))
+                if not seq or list(range(seq[0], seq[-1] + 1)) == list(seq):
+                    out.append((seq, "range"))
+    return out
+
+
+def export_layer_matrices(cfg, b):
+    """[(label, rows)]: for every width w <= the bound a rectangular and a ragged matrix whose cells differ
+    from column to column"""
+    dtype, n = cfg
+    tr = TR[dtype]
+    out = []
+    for w in range(1, b["index_collection_columns"] + 1):
+        rect = tuple(tuple(tr["ACGT"[(i + j) % 4]] for j in range(w)) for i in range(n))
+        out.append((w, ("v", rect)))
+        if n >= 2:
+            ragged = tuple(tuple(tr["ACGT"[(i + j) % 4]] for j in range(max(w - i, 0))) if i != 1 or n == 2 else None
+                           for i in range(n))
+            out.append((w, ("r", ragged)))
+    return out
+
+
 def index_subsets(L, b):
     """every subset of range(L) up to the bound; beyond it the empty set, everything, every
     single column, every all-but-one and every contiguous range"""
@@ -668,7 +717,7 @@ def site(op):
     if k == "rows":
         return ROWOPS[op[1]]
     if k == "export_idx":
-        return "export_character_subset" if op[2] == "subset-object" else "export_character_indices"
+        return "export_character_subset" if op[2] in ("subset-object", "new-subset") else "export_character_indices"
     if k == "export_sub":
         return "export_character_subset"
     if k == "concat":
@@ -708,6 +757,16 @@ def opstr(cfg, op):
             return "m = m.export_character_indices(set(%r))" % (idx,)
         if op[2] == "iter":
             return "m = m.export_character_indices(iter(%r))" % (idx,)
+        if op[2] == "tuple":
+            return "m = m.export_character_indices(%r)" % (tuple(idx),)
+        if op[2] == "frozenset":
+            return "m = m.export_character_indices(frozenset(%r))" % (idx,)
+        if op[2] == "range":
+            return "m = m.export_character_indices(%r)" % (range(idx[0], idx[-1] + 1) if idx else range(0),)
+        if op[2] == "gen":
+            return "m = m.export_character_indices(i for i in %r)" % (idx,)
+        if op[2] == "new-subset":
+            return "m.new_character_subset('s', character_indices=%r); m = m.export_character_subset('s')" % (idx,)
         return "m = m.export_character_subset(CharacterSubset(character_indices=%r))" % (idx,)
     if k == "export_sub":
         return "m = m.export_character_subset(<recorded subset #%d by %s>)" % (op[1], op[2])
@@ -778,8 +837,22 @@ def thunk_for(cfg, w, op, state):
             a = set(idx)
         elif form == "iter":
             a = iter(idx)
+        elif form == "tuple":
+            a = tuple(idx)
+        elif form == "frozenset":
+            a = frozenset(idx)
+        elif form == "range":
+            a = range(idx[0], idx[-1] + 1) if idx else range(0)
+            if list(a) != idx:
+                raise ValueError("harness: %r is not a range" % (idx,))
+        elif form == "gen":
+            a = (i for i in idx)
+        elif form == "new-subset":
+            # the subset is created through the public call, from the list as given
+            M.new_character_subset("s", character_indices=list(idx))
+            return lambda: M.export_character_subset("s")
         else:
-            cs = cmm.CharacterSubset(label="s", character_indices=idx[::-1])
+            cs = cmm.CharacterSubset(label="s", character_indices=list(idx))
             return lambda: M.export_character_subset(cs)
         return lambda: M.export_character_indices(a)
     if k == "export_sub":
@@ -952,7 +1025,10 @@ def check_transition(cfg, state, op, ctx, b, measure=False, prefix=None):
             V("%s|inconsistent-row-store" % s_site, "; ".join(probs))
             return None
         if producer or exp_exc == "value":
-            if after != state:
+            src_want = state
+            if k == "export_idx" and op[2] == "new-subset":
+                src_want = (label, rows, subsets + (("s", tuple(sorted(set(op[1])))),))
+            if after != src_want:
                 V("%s|%s" % (s_site, "source-changed" if producer else "changed-despite-refusal"),
                   "the matrix the method was called on / passed in changed: now %s" % pretty(after))
                 ok = False
@@ -1007,7 +1083,13 @@ def check_transition(cfg, state, op, ctx, b, measure=False, prefix=None):
                 V("concatenate|ragged-source|%s|%s" % (source_class(srcs), j[0]), j[1])
             return None
         if rsnap[1] != exp_rows:
-            V("%s|%s" % (s_site, row_feature(k, rows, rsnap[1], exp_rows)),
+            if k == "export_idx":
+                feature = "%s|wrong-columns" % index_collection_class(op[1], op[2])
+            elif k == "export_sub":
+                feature = "recorded-subset|wrong-columns"
+            else:
+                feature = row_feature(k, rows, rsnap[1], exp_rows)
+            V("%s|%s" % (s_site, feature),
               "result rows %s, reference %s" % (show_rows(rsnap[1]), show_rows(exp_rows)))
             ok = False
         if exp_ranges is not None:
@@ -1303,6 +1385,22 @@ def run_starts(chunk, ctx):
             ctx.count("pool_matrices")
             out.append((snap, ("start", j)))
         return out
+    if chunk["part"] == "exports":
+        mats = export_layer_matrices(cfg, b)
+        for mi, lo, hi in chunk["slices"]:
+            w, (lab, rows) = mats[mi]
+            state = (lab, rows, ())
+            for seq, form in index_collections(w)[lo:hi]:
+                op = ("export_idx", tup(seq), form)
+                ctx.case((cfg, "E1x", mi, op), nontrivial=cfg[1] >= 2)
+                ctx.count("transitions")
+                ctx.count("calls:%s(index collection layer)" % site(op))
+                ctx.count("index_collections:" + index_collection_class(seq, form))
+                check_transition(cfg, state, op, ctx, b)
+                if form == "list" and seq == (0, 1, 1, 3) and lab == "r":
+                    ctx.sample({"layer": "E1 export, index collections", "config": "%s, %d taxa" % cfg, "m": pretty(state),
+                                "call": opstr(cfg, op), "reference": show_rows(ref_export(rows, seq))}, 1)
+        return out
     if chunk["part"] == "ragged":
         for pat, arr, via in chunk["items"]:
             pat = tup(pat)
@@ -1477,6 +1575,10 @@ def explore(tier, runner):
         lists = concat_lists_pool_only(cfg, b, len(pool(cfg, b)))
         for i in range(0, len(lists), 40):
             chunks.append({"cfg": cfg, "tier": tier, "part": "concat", "lists": lists[i:i + 40]})
+        for mi, (w, _m) in enumerate(export_layer_matrices(cfg, b)):
+            total = len(index_collections(w))
+            for lo in range(0, total, 1500):
+                chunks.append({"cfg": cfg, "tier": tier, "part": "exports", "slices": [(mi, lo, min(lo + 1500, total))]})
         items = ragged_items(cfg)
         for i in range(0, len(items), 80):
             chunks.append({"cfg": cfg, "tier": tier, "part": "ragged", "items": items[i:i + 80]})
